@@ -567,12 +567,30 @@ func sigParams(sig *types.Signature) ([]string, []types.Type) {
 
 // findFunction finds the ssa.Function for a key among the loaded (syntax) packages.
 func (v *Verifier) findFunction(key string) *ssa.Function {
+	// function literals are addressed by go/ssa's name of the anonymous function: pkg/path.Outer$1, pkg/path.Outer$1$2
+	var inAnon func(fn *ssa.Function) *ssa.Function
+	inAnon = func(fn *ssa.Function) *ssa.Function {
+		for _, af := range fn.AnonFuncs {
+			if af.String() == key {
+				return af
+			}
+			if r := inAnon(af); r != nil {
+				return r
+			}
+		}
+		return nil
+	}
 	for _, sp := range v.ssaPkgs {
 		for _, m := range sp.Members {
 			switch mm := m.(type) {
 			case *ssa.Function:
 				if mm.String() == key {
 					return mm
+				}
+				if strings.HasPrefix(key, mm.String()+"$") {
+					if r := inAnon(mm); r != nil {
+						return r
+					}
 				}
 			case *ssa.Type:
 				for _, t := range []types.Type{mm.Type(), types.NewPointer(mm.Type())} {
